@@ -493,7 +493,8 @@ def draw_network(
     y_padding = height / 20
 
     # gather agent data
-    s_default = (180 / max(width, height)) ** 2
+    # a layout without extent (a single node) is sized like a single cell
+    s_default = (180 / (max(width, height) or 1)) ** 2
     arguments = collect_agent_data(space, agent_portrayal, size=s_default)
 
     # look up the layout position of each agent's node by the node's label
